@@ -467,6 +467,14 @@ def account(case, step_label, results, errors, in_flight, intent=None, mutated=F
     return fails
 
 
+def stopped_before_engine(result):
+    """Certificate / authentication refusals and undecodable requests never reach an operation."""
+    reason, op, msg = result
+    if reason == "AUTHENTICATION_NOT_SUCCESSFUL":
+        return True
+    return reason == "INVALID_MESSAGE" and op is None and bool(msg) and msg.startswith("Error parsing")
+
+
 def in_flight_kinds(case, frame, req):
     kinds = set(case.reg.contains(frame))
     for u in referenced_uids(req or {}):
@@ -500,12 +508,16 @@ def run_server(spec):
                 case.classes.append("unencodable")
                 continue
             data = mutate(clean, step.get("mut"), case.reg)
-            kinds = in_flight_kinds(case, clean, req)
+            # in flight: secrets in the bytes actually sent; the secrets of addressed objects only
+            # when the request got as far as an operation (decided after the exchange)
+            kinds = in_flight_kinds(case, data, None)
             n_items = len(req.get("items", []))
             sent, errors = exchange(case, server, cap, data, who, step.get("cert", "default"),
                                     step.get("auth"), step.get("chunks"))
             results = case.read_responses(sent)
             messages.extend(results)
+            if results and not any(stopped_before_engine(r) for r in results):
+                kinds = in_flight_kinds(case, data, req)
             fails = account(case, step.get("label"), results, errors, kinds, step.get("intent"),
                             bool(step.get("mut")), batch=n_items > 1)
             if step.get("label"):
@@ -831,6 +843,8 @@ def run_client(spec):
             out = response_fault(b"".join(sent), call.get("fault"), case)
             if call.get("fault"):
                 case.frames.append(("response", out))
+            # secrets in what the client is about to read (Get / Decrypt / Encrypt responses)
+            state["kinds"].update(case.reg.contains(out))
             return out
 
         client, sock = make_client(tuple(spec.get("v", (1, 2))), responder, cred[0], cred[1])
@@ -861,7 +875,10 @@ def run_client(spec):
                 outcome = type(e).__name__
                 res = None
             case.classes.append("call:" + label)
-            kinds = set(state["kinds"]) | state.pop("ref", set()) | new_kinds
+            ref = state.pop("ref", set())
+            kinds = set(state["kinds"]) | new_kinds
+            if state["results"] and not any(stopped_before_engine(r) for r in state["results"]):
+                kinds |= ref
             failed_items = any(r[0] is not None for r in state["results"])
             client_fail = None
             if state["requests"] == 0:
